@@ -1115,6 +1115,7 @@ pub fn project(name: &str, trace: &[Value]) -> Vec<Value> {
         "hs" => crate::proj_hs::hs(trace),
         "sched" => crate::proj_sched::sched(trace),
         "dispatch" => crate::proj_dispatch::dispatch(trace),
+        "retx" => crate::proj_retx::retx(trace),
         "migration" => crate::proj_c15::migration(trace),
         "dgram" => crate::proj_c16::dgram(trace),
         "zerortt" => crate::proj_c17::zerortt(trace),
